@@ -273,6 +273,8 @@ END_LEXICAL_FORM:
 		iri, iriRange, err := r.captureOpenIRI(cursorio.DecodedRuneList{r2})
 		if err != nil {
 			return rdf.Literal{}, nil, grammar.R_literal.Err(err)
+		} else if iri == rdfiri.LangString_Datatype || iri == "http://www.w3.org/1999/02/22-rdf-syntax-ns#dirLangString" {
+			return rdf.Literal{}, nil, grammar.R_literal.Err(grammar.R_IRIREF.ErrWithTextOffsetRange(errors.New("a literal of a language-tagged datatype requires a language tag"), iriRange))
 		}
 
 		var fullRange *cursorio.TextOffsetRange
